@@ -97,3 +97,33 @@ enum TieAfterHigherElsewhere {
     #[regex("x[a-z0-9]", priority = 1)] W,
     #[regex("x[a-m]", priority = 4)] T2,
 }
+
+#[derive(Logos)]
+enum TieSeparatedByLower {
+    #[token("ab")] Lit,              // priority 4
+    #[regex("[a-z]+")] Word,         // priority 2, also matches "ab", declared between the tied leaves
+    #[regex("a[a-z]")] Pair,         // priority 4 -> tie with Lit on "ab"
+}
+
+#[derive(Logos)]
+#[logos(skip "ab")]
+enum TieSkipSeparatedByLower {
+    #[regex("[a-z]+")] Word,         // priority 2
+    #[regex("[a-c]{2}")] Two,        // priority 4 -> tie with the skip "ab" (4), Word in between
+}
+
+#[derive(Logos)]
+enum TieSeparatedTwice {
+    #[regex("[a-c]x", priority = 5)] A,
+    #[regex("[a-z]x", priority = 1)] Lo1,
+    #[regex("[b-d]x", priority = 5)] B,   // ties with A on "bx", "cx"
+    #[regex("[a-z]+", priority = 2)] Lo2,
+    #[regex("[c-e]x", priority = 5)] C,   // ties with A, B on "cx"; with B on "dx"
+}
+
+#[derive(Logos)]
+enum LowerBetweenButNoTie {
+    #[token("ab")] Lit,              // 4
+    #[regex("[a-z]+")] Word,         // 2
+    #[regex("a[a-z]c")] Triple,      // 6, never matches "ab": accepted
+}
